@@ -191,6 +191,9 @@ def run_case(case: dict) -> dict:
         ln = canopen.LocalNode(n, od)
         net2.add_node(ln)
         lnodes[n] = ln
+        if case.get("slow_store") and mode != "inline":
+            # the application behind the local node takes its time to accept a written value
+            ln.add_write_callback(lambda **kw: time.sleep(0.02))
 
     noise_ids = [0x123, 0x3FF, 0x77F, 0x10000, 0x600 + 120, 0x580 + 121]
     # 29-bit identifiers of another protocol whose low 11 bits equal an SDO COB-ID in use
